@@ -116,6 +116,12 @@ class Check(BaseCheck):
         elif how == 'cell':
             self.cellvals['A1'], self.cellvals['$B$2'] = a, b
             fs = {op: 'A1%s$b$2' % op for op in OPS}
+        elif how in ('lit-var', 'var-lit', 'lit-cell'):
+            # the two operands reach the comparison by DIFFERENT routes: the same value written in the formula and handed over by the host
+            la, lb = self.literal(a), self.literal(b)
+            e.bind(v_a=a, v_b=b)
+            self.cellvals['$B$2'] = b
+            fs = {op: {'lit-var': '%s%sv_b' % (la, op), 'var-lit': 'v_a%s%s' % (op, lb), 'lit-cell': '%s%s$b$2' % (la, op)}[how] for op in OPS}
         else:
             la, lb = self.literal(a), self.literal(b)
             fs = {op: '%s%s%s' % (la, op, lb) for op in OPS}
@@ -189,6 +195,7 @@ class Check(BaseCheck):
             vals += rnd.sample([d.strftime('%Y-%m-%d'), d.isoformat(), d.isoformat(' '), d.strftime('%d %b %Y'), d.strftime('%Y-%m-%d %H:%M'), d.strftime('%m/%d/%Y'), d.strftime('%B %d, %Y'),
                                 d.strftime('%Y/%m/%d'), d.strftime('%d.%m.%Y'), d.strftime('%H:%M:%S')], 3)
         vals += ['43789', '43789.5', '61', 'FALSE', 'true', '0', '-1', '1E3', '1e3']
+        vals += [rnd.randint(1, 19) + rnd.randint(1, 99) / 100.0 for _ in range(6)] + [1.14, 2.47, 4.56, 114 / 100.0]
         while len(vals) < n + 60:
             vals.append(GV.gen(rnd, rnd.choice(classes)))
         rnd.shuffle(vals)
@@ -205,7 +212,7 @@ class Check(BaseCheck):
                 if k < 0.15:
                     how = 'cell'
                 elif k < 0.35 and self.literal(a) is not None and self.literal(b) is not None:
-                    how = 'lit'
+                    how = rnd.choice(['lit', 'lit', 'lit-var', 'var-lit', 'lit-cell'])
                 got = self.judge_pair(rec, a, b, how)
                 if got is not None:
                     results[(ia, ib)] = got
